@@ -787,6 +787,12 @@ func (vals *ValidatorSet) VerifyCommitLightTrusting(chainID string, commit *Comm
 	if trustLevel.Denominator == 0 {
 		return errors.New("trustLevel has zero Denominator")
 	}
+	// The fraction is held in uint64s but the arithmetic below is done in int64:
+	// larger values would wrap to negative numbers (and a negative voting power
+	// needed is exceeded by any signature).
+	if trustLevel.Numerator > math.MaxInt64 || trustLevel.Denominator > math.MaxInt64 {
+		return fmt.Errorf("trustLevel %v does not fit in int64", trustLevel)
+	}
 
 	var (
 		talliedVotingPower int64
